@@ -56,7 +56,7 @@ def check_delegation(ctx, rule, only_array=False, only=None):
 
         def run(it_, m=m):
             sv = Inst(ci, {}, "self")
-            bound = {p: Num(nf.sym(p)) for p in m.params[1:] + m.kwonly}
+            bound = it_.symbolic_args(m)
             return it_._exec_function(m, bound, sv, None, ci)
 
         paths = [p for p in it.explore(run) if p.outcome == "return"]
@@ -115,6 +115,11 @@ def check_builder(ctx, rule):
     it = interp(ctx, opaque=opaque)
     ctx.touch(q)
     paths = returns(it.run_function(q))
+    # partitions that differ only in side conditions (a logging level test, say) and return the same table are one result
+    distinct = {}
+    for p_ in paths:
+        distinct.setdefault(nf.key(it.to_nf(p_.value)) if p_.value is not None else None, p_)
+    paths = list(distinct.values())
     if len(paths) != 1 or not isinstance(paths[0].value, DictV):
         raise AnalysisError(f"{q}: expected one path returning a table")
     p = paths[0]
@@ -212,8 +217,12 @@ def check_sutton(ctx, rule):
     by_fluid = {}
     for name in ("dry gas", "wet gas", "condensate", "dry", "Dry Gas", ""):
         by_fluid[name] = it.run_function(SQ, args={"fluid": StrV(name)})
-    bad_accept = [n for n in ("condensate", "dry", "Dry Gas", "") if any(p.outcome != "raise" or p.exc != "ValueError" or any(e.kind in ("ext_call", "opaque_call") for e in p.events) for p in by_fluid[n])]
-    bad_reject = [n for n in ("dry gas", "wet gas") if any(p.outcome == "raise" for p in by_fluid[n])]
+    # (other validation of the arguments may raise on its own paths - it cannot depend on the literal fluid name)
+    bad_accept = [
+        n for n in ("condensate", "dry", "Dry Gas", "")
+        if any(p.outcome != "raise" or any(e.kind in ("ext_call", "opaque_call") for e in p.events) for p in by_fluid[n]) or not any(p.exc == "ValueError" for p in by_fluid[n])
+    ]
+    bad_reject = [n for n in ("dry gas", "wet gas") if not any(p.outcome == "return" for p in by_fluid[n])]
     ctx.check(
         not bad_accept and not bad_reject, "C19-d", SQ + ":unknown fluid", f.where(),
         "ValueError is raised, before any arithmetic, exactly when the fluid type is not a member of the two-element collection {'dry gas', 'wet gas'}",
